@@ -18,7 +18,9 @@ Open Scope nat_scope.
 Theorem C09_source_shape :
   hilbert_splits_dedup = false /\ hilbert_part_is_binary_search_of_index = true
   /\ quantiles_search_by_partial_cmp = true /\ partial_cmp_is_less_or_greater = true
-  /\ average_u64_is_and_plus_half_xor = true /\ zcurve_chunk_guard = true.
+  /\ average_u64_is_and_plus_half_xor = true /\ zcurve_chunk_guard = true
+  (* the requested order reaches the recursion / the index function unchanged (no clamp) *)
+  /\ zcurve_depth_is_order = true /\ hilbert_order_passed_unchanged = true.
 Proof. repeat split; exact eq_refl. Qed.
 
 (* the implementation's entry points: the models at the constants of the current source *)
